@@ -87,7 +87,7 @@ def generate(g, tier):
                                  ('1,2', '[1, 2]'), ('"a",1', "['a', 1]"), ('(1,2),3', '[1, 2, 3]'), ('1,(2,3)', '[1, [2, 3]]'), ('TRUE,""', "[True, '']")])
             cases.append(dict(op='compile', src=dict(text=f'${cmd} {e}'), meta=dict(family='dollar', expout=[f'{cmd} {v}'])))
         elif k < 0.7:
-            n = r.choice([0, 1, 2, 5, 17, 99, 100, 250])
+            n = r.choice([0, 1, 2, 5, 17, 99, 100, 250, 100050, 250000]) if g.chance(0.9) else 1000000
             cases.append(dict(op='compile', src=dict(text=f'$ENTER {n}'), meta=dict(family='enter', expout=['ENTER'] * n)))
         else:
             n = r.choice([0, 1, 2, 5, 50, 98, 99, 100, 101, -1, -5])
